@@ -19,6 +19,7 @@ type msgSpec struct {
 	P     int    // partition wanted (drives the key)
 	Size  int    // value padding
 	Topic string // message-level topic ("" = writer-level)
+	Hdr   int    // > 0: the message carries one header "h" with a value of this many bytes
 }
 
 type callSpec struct {
@@ -221,7 +222,11 @@ func (s *WS) run(x *qx.Exec, prop string) *qx.Outcome {
 				for mi, m := range call.Msgs {
 					id := fmt.Sprintf("t%dc%dm%d", ti, ci, mi)
 					val := id + "|" + strings.Repeat("x", m.Size)
-					msgs = append(msgs, kafka.Message{Key: []byte{byte('0' + m.P)}, Value: []byte(val), Topic: m.Topic})
+					km := kafka.Message{Key: []byte{byte('0' + m.P)}, Value: []byte(val), Topic: m.Topic}
+					if m.Hdr > 0 {
+						km.Headers = []kafka.Header{{Key: "h", Value: []byte(strings.Repeat("y", m.Hdr))}}
+					}
+					msgs = append(msgs, km)
 					cr.IDs = append(cr.IDs, id)
 					t := m.Topic
 					if t == "" {
